@@ -6,10 +6,10 @@ from harness import gen
 PID = "C20"
 NEEDS_UTILS = True
 RULE = ("Trainer.fit / Trainer.test runs over epochs 1-4 x training batches 1-6 x with/without validation loader x with/without evaluator x label "
-        "modes {binary, multi-class, categorical} x models with Dropout and BatchNorm x {SGD, Adam} x callbacks (on_train_epoch, "
+        "modes {binary, multi-class, categorical} x models with Dropout and BatchNorm (optionally left partly in eval mode before fit) x {SGD, Adam} (optionally holding a parameter that is not part of the model) x callbacks (on_train_epoch, "
         "on_validation_epoch, evaluator step/epoch callbacks); every optimizer.step / zero_grad, model.train / eval, model forward, loss call and "
         "backward is recorded with the training flag of every submodule, the gradient mode (probed behaviourally) and a SHA-256 of all parameters "
-        "and batch-norm buffers; the trace is checked offline against the grammar of the statement; history and accuracies are recomputed from "
+        "and batch-norm buffers, whether all optimizer-held gradients are clear when a backward starts and whether they are unchanged between backward and step; batches are classified by role (back-propagated or not) and the trace is checked offline against the grammar of the statement; history and accuracies are recomputed from "
         "the recorded batch losses / outputs. distinct key = configuration tuple; non-trivial = >= 2 epochs or >= 2 batches")
 ASSUMPTIONS = ["pkbar replaced by a silent stub if unimportable (progress bar only)", "batch sizes >= 2 (Evaluator.step squeezes a batch of one sample to 0-d and "
                "rejects it; that input is outside 'any number of batches')", "losses / accuracies compared to 1e-5 relative (float32 training)"]
